@@ -272,6 +272,7 @@ func ruleC19(prog *Program, rep *Report) {
 	ruleOkDrop(prog, rep, "alt")
 	ruleOperandOrder(prog, rep, "alt")
 	ruleFloatNarrow(prog, rep, "alt")
+	ruleLoopExit(prog, rep, 40, "alt") // ignore paths and members are searched in loops
 }
 
 func isLenCall(e ast.Expr) bool {
